@@ -84,6 +84,20 @@ pub fn lengths(cx: &mut Ctx, args: &Args, rng: &mut Rng) -> i32 {
                 cx.drop_inst(id, inst);
             }
         }
+        // hand-written length checks (the variable-length ciphers): lengths far beyond the sweep, around the powers of two at
+        // which a narrowed or scaled length would wrap onto an accepted one (len as u8 / u16, 8 * len as u16, ...)
+        let accepted = key_lens(&cx.types[ti], true);
+        if accepted.len() > 1 {
+            let (lo, hi) = (accepted[0], *accepted.last().unwrap());
+            for base in [256usize, 512, 1024, 2048, 4096, 8192, 16384, 32768, 65536] {
+                for len in [base - 1, base, base + lo, base + hi, base + ksz.min(hi), base + hi + 1] {
+                    let key = vec![0x42u8; len];
+                    if let Some((id, inst)) = cx.construct(ti, "slice", &key, "len-huge") {
+                        cx.drop_inst(id, inst);
+                    }
+                }
+            }
+        }
         cx.end();
     }
     0
@@ -240,6 +254,16 @@ pub fn weak(cx: &mut Ctx, args: &Args, rng: &mut Rng) -> i32 {
                     }
                 }
                 if name != "Des" {
+                    // a listed DES key at every unaligned offset (covering no whole part): the key is sound unless a part is
+                    for (wi, w) in DES_WEAK.iter().enumerate() {
+                        let off = 1 + (wi * 5 + r.below(7)) % (ksz - 8 - 1);
+                        if off % 8 == 0 {
+                            continue;
+                        }
+                        let mut k = r.bytes(ksz);
+                        k[off..off + 8].copy_from_slice(&w[..]);
+                        keys.push(("weak-unaligned".into(), k));
+                    }
                     // equal parts in each pair, with and without parity differences; near misses
                     for a in 0..parts {
                         for b in (a + 1)..parts {
@@ -299,11 +323,16 @@ pub fn names(cx: &mut Ctx, args: &Args, rng: &mut Rng) -> i32 {
         }
         for (kc, key) in mix(&mut r, ksz, nkeys) {
             if let Some((id, inst)) = cx.construct(ti, "new", &key, &kc) {
-                let d = catch(|| inst.debug());
-                match d {
-                    Ok(Some(s)) => cx.emit(json!({"ev":"debug","id":id,"type":name,"text":ev::text(&s),"text_s":s,"outcome":"ok"})),
-                    Ok(None) => cx.emit(json!({"ev":"debug","id":id,"type":name,"text":[],"text_s":"","outcome":"absent"})),
-                    Err(_) => cx.emit(json!({"ev":"debug","id":id,"type":name,"text":[],"text_s":"","outcome":"panic"})),
+                // every format spec: the flags of the caller's Formatter must not change what is named
+                for (si, spec) in crate::cat::DEBUG_SPECS.iter().enumerate() {
+                    crate::cat::DEBUG_SPEC.store(si, std::sync::atomic::Ordering::Relaxed);
+                    let d = catch(|| inst.debug());
+                    crate::cat::DEBUG_SPEC.store(0, std::sync::atomic::Ordering::Relaxed);
+                    match d {
+                        Ok(Some(s)) => cx.emit(json!({"ev":"debug","id":id,"type":name,"spec":spec,"text":ev::text(&s),"text_s":s,"outcome":"ok"})),
+                        Ok(None) => cx.emit(json!({"ev":"debug","id":id,"type":name,"spec":spec,"text":[],"text_s":"","outcome":"absent"})),
+                        Err(_) => cx.emit(json!({"ev":"debug","id":id,"type":name,"spec":spec,"text":[],"text_s":"","outcome":"panic"})),
+                    }
                 }
                 cx.drop_inst(id, inst);
             }
